@@ -116,6 +116,18 @@ def run_tree(acc, st, case, scenario, k, start_rows, overwrite, Tm):
                 start = space[start_rows].clone()
                 keep = start.clone()
                 r = st.rbm_am.gibbs_steps(k, start, overwrite=overwrite)
+            elif scenario == "sample-1d":
+                start = space[start_rows[0]].clone()  # a single chain given as a 1-D vector
+                keep = start.clone()
+                r = st.sample(k=k, initial_state=start, overwrite=overwrite)
+                if r.dim() != 1:
+                    flags.append(("1d-start-does-not-give-1d-result", tape.choices[:]))
+                r = r.reshape(1, -1)
+                if not overwrite and not torch.equal(start, keep):
+                    flags.append(("start-modified-without-overwrite", tape.choices[:]))
+                if overwrite and not torch.equal(start.reshape(1, -1), r):
+                    flags.append(("overwrite-did-not-update-in-place", tape.choices[:]))
+                start = keep = None
             elif scenario == "random-start":
                 start = keep = None
                 r = st.sample(k=k, num_samples=1)
@@ -207,6 +219,8 @@ def run_tree_item(acc, item):
         tree_case(acc, case, "sample", K - 1 if (big and K > 1) else K, [s], True)
         tree_case(acc, case, "gibbs", 1 if big else min(K, 2), [s], True)
         tree_case(acc, case, "gibbs", 1, [s], False)
+        tree_case(acc, case, "sample-1d", min(K, 2), [s], False)
+        tree_case(acc, case, "sample-1d", 1, [s], True)
         if K >= 2:
             tree_case(acc, case, "continued", [1, 1], [s], None)
         if K >= 3:
